@@ -503,12 +503,35 @@ Proof.
   inv_ok. bool_to_prop. split; [apply mono_refl|]. intros _ _. lia.
 Qed.
 
+Lemma step_transfer_leader_mono r m r' e :
+  m_type m = MsgTransferLeader ->
+  step_transfer_leader st step_rec r m = Ok (r', e) -> mono r r'.
+Proof.
+  unfold step_transfer_leader. intros T H.
+  match type of H with bind ?x _ = _ => destruct x as [[r1 e1]|] eqn:E1; cbn [bind] in H; [|discriminate] end.
+  assert (M1 : mono r r1).
+  { destruct (r_state r).
+    - apply step_follower_mono in E1. exact E1.
+    - eapply step_candidate_mono; [|exact E1]. rewrite T. left. reflexivity.
+    - apply step_leader_mono in E1. exact E1.
+    - eapply step_candidate_mono; [|exact E1]. rewrite T. left. reflexivity. }
+  destruct (state_type_eqb (r_state r) StateLeader && self_transfer_aborts r m).
+  - cbn [fst snd] in H.
+    match type of H with bind ?x _ = _ => destruct x as [r2|] eqn:E2; cbn [bind] in H; [|discriminate] end.
+    inversion H; subst. apply applied_to_mono in E2. eapply mono_trans; eassumption.
+  - inversion H; subst. exact M1.
+Qed.
+
 Lemma step_dispatch_mono r m r' e :
   (from_leader (m_type m) = false \/ r_term r <= m_term m) ->
   step_dispatch st step_rec r m = Ok (r', e) -> mono r r'.
 Proof.
   unfold step_dispatch. intros Hm H.
   inv_ok;
+    try (match goal with
+         | E : step_transfer_leader _ _ _ _ = Ok _, T : m_type _ = _ |- _ =>
+             eapply step_transfer_leader_mono; [exact T|exact E]
+         end);
     try (match goal with
          | E : step_candidate _ _ _ = Ok _, T : m_type _ = _ |- _ =>
              eapply step_candidate_mono; [|exact E]; rewrite T; exact Hm
@@ -579,8 +602,10 @@ Proof.
         eapply mono_trans; [|exact ES]. apply same_hs_mono. same_hs_done.
       - inversion E2; subst. apply same_hs_mono. same_hs_done. }
     eapply mono_trans; [exact M2|].
-    destruct (state_type_eqb (r_state r2) StateLeader && _); inversion E1; subst;
-      [apply same_hs_mono; same_hs_done|apply mono_refl]. }
+    destruct (state_type_eqb (r_state r2) StateLeader && _).
+    - unfold applied_to_top in E1. apply (applied_to_mono _ step_inner_mono) in E1.
+      eapply mono_trans; [|exact E1]. apply same_hs_mono. same_hs_done.
+    - inversion E1; subst. apply mono_refl. }
   assert (M : mono r r1) by exact (mono_trans _ _ _ M0 M1).
   destruct (negb (state_type_eqb (r_state r1) StateLeader)); [inversion H; subst; exact M|].
   destruct (r_heartbeat_timeout r1 <=? r_heartbeat_elapsed r1); [|inversion H; subst; exact M].
